@@ -1174,3 +1174,11 @@ pub mod verif_hooks {
         )
     }
 }
+
+/// Verification hooks for the unit level / per-connection metrics (C15) and
+/// the tracing page (C19) (feature `verif-hooks`, add-only): the real accept
+/// loop and `RouterHandler` on in-memory connections. A child module because
+/// `BmpTcpInRunner` and `ConfigAcceptor` are private to this module.
+#[cfg(feature = "verif-hooks")]
+#[path = "verif_hooks_conn.rs"]
+pub mod verif_hooks_conn;
